@@ -74,6 +74,7 @@ const (
 	ModElems
 	ModAllOfType // every object of a type: all T.f / all T.*
 	ModAllMem    // every backing array with element type T: mem T
+	ModWindow    // the elements of a slice within its bounds only (not the rest of its backing array): window x
 )
 
 type ModTarget struct {
@@ -792,6 +793,13 @@ func parseModTarget(s string) (*ModTarget, error) {
 	}
 	if strings.HasPrefix(s, "mem ") {
 		return &ModTarget{Kind: ModAllMem, TypeName: strings.TrimSpace(s[4:]), Src: s}, nil
+	}
+	if strings.HasPrefix(s, "window ") {
+		e, err := parseExpr(strings.TrimSpace(s[7:]))
+		if err != nil {
+			return nil, err
+		}
+		return &ModTarget{Kind: ModWindow, Base: e, Src: s}, nil
 	}
 	if strings.HasPrefix(s, "all ") {
 		r := strings.TrimSpace(s[4:])
